@@ -15,13 +15,13 @@ import (
 func init() {
 	register(&PropDef{
 		ID: "C07", Level: "exploration", Quick: 6000, Thorough: 800000, QuickCap: 110,
-		Rule: "each run = one store, 2-4 client tasks x 1-4 HTTP requests on 1-2 object names: conditional and unconditional uploads (media, multipart, resumable), patches conditioned on metageneration, deletes, compose and copy into the contended name (static sources), metadata and media reads; the seeded scheduler interleaves them at every store access (Store seam), every internal step of the per-object lock map and the file store's write steps; 0-1 request contexts are cancelled at a scheduled instant; the history (global event stamps) is checked per object with porcupine against the object model with generations as opaque fresh tokens, plus the single-winner invariant for N writers conditioned on one generation; distinct = trace + response hash; non-trivial = at least one preemption",
+		Rule: "each run = one store, 2-4 client tasks x 1-4 HTTP requests on 1-2 object names: conditional and unconditional uploads (media, multipart, resumable), patches conditioned on metageneration, deletes, compose and copy (same bucket and across buckets) into the contended name (static sources), metadata and media reads; the seeded scheduler interleaves them at every store access (Store seam), every internal step of the per-object lock map and the file store's write steps; 0-1 request contexts are cancelled at a scheduled instant; the history (global event stamps) is checked per object with porcupine against the object model with generations as opaque fresh tokens, plus the single-winner invariant for N writers conditioned on one generation; distinct = trace + response hash; non-trivial = at least one preemption",
 		Real: []string{"gcsemu handlers through the real mux, gcsutil.TransientLockMap, memstore (btree under its mutexes), filestore (content, mtime, sidecar as separate system calls)"},
 		Stub: []string{"HTTP connections (recorder)", "Go channel blocking in the lock map (wait-until)", "wall clock (strictly increasing, so generations are distinct; the stalled clock belongs to C10)"},
 		Assume: []string{"a resumable upload is one operation whose window spans all its requests", "listings are not part of this workload", "porcupine Unknown is counted, never reported"},
 		Run: runC07,
 	})
-	expectedProbes["C07"] = []string{"c07.same_generation_writers", "c07.patch_race", "c07.delete_vs_upload", "c07.reader_among_writers", "c07.lock_waited", "c07.cancel_fired", "c07.porcupine_ok", "c07.compose_vs_upload"}
+	expectedProbes["C07"] = []string{"c07.same_generation_writers", "c07.patch_race", "c07.delete_vs_upload", "c07.reader_among_writers", "c07.lock_waited", "c07.cancel_fired", "c07.porcupine_ok", "c07.compose_vs_upload", "c07.cross_bucket_copy"}
 }
 
 type c07In struct {
@@ -237,8 +237,10 @@ func runC07(r *Run) {
 	// static sources for compose / copy
 	srcA := upSpec{Bucket: "bkt", Name: "srcA", Content: []byte("AAAA"), ContentType: "text/plain"}
 	srcB := upSpec{Bucket: "bkt", Name: "srcB", Content: []byte("BB"), ContentType: "text/plain", Metadata: map[string]string{"from": "b"}}
+	srcX := upSpec{Bucket: "other-bucket", Name: "srcX", Content: []byte("XXXXX"), ContentType: "text/x-other", Metadata: map[string]string{"from": "x"}}
 	w.UploadMedia(srcA)
 	w.UploadMultipart(srcB)
+	w.UploadMultipart(srcX)
 	var evt int64
 	type hop struct {
 		c    int
@@ -356,8 +358,11 @@ func runC07(r *Run) {
 					in = c07In{Kind: "compose", Op: op, Name: name, Summary: a + "\x00" + b, Desc: op.String()}
 					r.Probe("c07.compose_vs_upload")
 				case 4:
-					src := []upSpec{srcA, srcB}[d.n(2)]
-					op := gOp{Kind: "Copy", Bucket: "bkt", Name: src.Name, DstB: "bkt", DstN: name}
+					src := []upSpec{srcA, srcB, srcX}[d.n(3)] // srcX: copy across buckets
+					if src.Bucket != "bkt" {
+						r.Probe("c07.cross_bucket_copy")
+					}
+					op := gOp{Kind: "Copy", Bucket: src.Bucket, Name: src.Name, DstB: "bkt", DstN: name}
 					a, b := objSum(objFromUpload(src))
 					in = c07In{Kind: "copy", Op: op, Name: name, Summary: a + "\x00" + b, Desc: op.String()}
 				case 5:
